@@ -238,16 +238,9 @@ func (s *fontSpec) expandEncoding(names []string) []int {
 		m = 256
 	}
 	mode := s.EncMode
-	pairSwaps := 0
-	if m == 256 && (mode == encShuffled || mode == encRuns) {
-		// 256 encoded glyphs need format 1 (format 0 counts codes in one
-		// byte) and format 1 holds at most 255 ranges: an arbitrary
-		// permutation of all 256 codes is not representable in CFF at all.
-		// What is representable: sorted codes with up to 127 adjacent pairs
-		// swapped (each swapped code is a range of its own: up to 255 ranges).
-		mode = encSorted
-		pairSwaps = int(s.EncSeed % 128)
-	}
+	// m == 256 with every glyph a run of its own fits neither table form
+	// (format 0 counts codes in one byte, format 1 holds 255 ranges); it is
+	// representable with glyph 256 among the supplemental codes.
 	enc := make([]int, 256)
 	codes := make([]int, 256)
 	for i := range codes {
@@ -279,9 +272,6 @@ func (s *fontSpec) expandEncoding(names []string) []int {
 				copy(codes[:m], rot)
 			}
 		}
-	}
-	for i := 0; i+1 < 2*pairSwaps && i+1 < m; i += 2 {
-		codes[i], codes[i+1] = codes[i+1], codes[i]
 	}
 	for i := 0; i < m; i++ {
 		enc[codes[i]] = i + 1
